@@ -21,6 +21,7 @@ CPAL = [np.array(['a', 'b', 'a', 'c', 'b', 'a']), np.array(['c', 'a', 'b', 'b', 
 IMG = [np.array([[1., 1., 5.], [1., 5., 5.], [9., 1., 1.]]), np.array([[1., 5., 5.], [5., 5., 1.], [1., 1., 1.]])]
 
 
+JT = [np.array([1., 5., 9., 2.]), np.array([6., 1., 1., 1.])]
 IMAGE_KINDS = ('floodfill', 'floodfill_linked', 'slice_aligned')
 TWO_IMAGE_KINDS = ('floodfill_linked', 'slice_aligned')
 
@@ -52,6 +53,17 @@ class World(object):
             self.d2 = Data(label='d2', u=np.array([2., 4., 6., 8., 10., 12.]))
             self.cu = self.d2.id['u']
             datasets.append(self.d2)
+        self.j2 = self.j3 = self.jz = None
+        if kind == 'keyjoin':
+            # d -- j2 -- j3 joined by key in a chain; the selection lives on j3 and reaches d through j2.
+            # jz is joined to nothing: its selections can be evaluated nowhere else
+            self.d.add_component(np.array([0, 1, 2, 0, 1, 2])[:n], 'kk')
+            self.j2 = Data(label='j2', k=np.array([0, 1, 2]), k2=np.array([7, 8, 9]))
+            self.j3 = Data(label='j3', k3=np.array([9, 8, 7, 7]), t=JT[p.get('jt', 0)].copy())
+            self.jz = Data(label='jz', q=np.array([1., 2.]))
+            self.d.join_on_key(self.j2, 'kk', 'k')
+            self.j2.join_on_key(self.j3, 'k2', 'k3')
+            datasets += [self.j2, self.j3, self.jz]
         if kind in IMAGE_KINDS:
             self.img = Data(label='img', v=IMG[p['img']].copy())
             self.cv = self.img.id['v']
@@ -412,6 +424,26 @@ def m_pixel_links(how):
     return ('links:%s' % how, real, model)
 
 
+def mk_keyjoin(w, s):
+    return w.j3.id['t'] > sp(s, 'thr', 4.0)
+
+
+def m_upd_jt():
+    def real(w):
+        w.j3.update_components({w.j3.id['t']: JT[1].copy()})
+
+    def model(p):
+        p['jt'] = 1
+    return ('upd:j3.t', real, model)
+
+
+def ev_unrelated_on_partner(w):
+    """a selection that can be evaluated nowhere in the join graph, asked of the dataset in the MIDDLE of the
+    chain: it legitimately fails, and must leave nothing behind"""
+    _quiet(lambda: w.j2.get_mask(w.jz.id['q'] > 0))
+    _quiet(lambda: w.j3.get_mask(w.jz.id['q'] > 0))
+
+
 def mk_linked(w, s):
     return w.cu > sp(s, 'thr', 5.0)
 
@@ -477,6 +509,8 @@ KINDS = {
     'slice_aligned': dict(s0=dict(thr=18.0), make=mk_slice_aligned,
                           muts=[m_pixel_links('clear'), m_pixel_links('straight'), m_pixel_links('crossed'),
                                 setter(['state2'], 'right', 4.0, 'thr')]),
+    'keyjoin': dict(s0=dict(thr=4.0), make=mk_keyjoin, muts=[m_upd_jt(), setter([], 'right', 1.5, 'thr')],
+                    evals=[('E:unrelated-on-partner', ev_unrelated_on_partner)]),
     'floodfill': dict(s0=dict(start=(0, 0), thr=1.2), make=mk_floodfill, muts=[m_upd_img(), setter([], 'threshold', 5.5, 'thr'),
                                                setter([], 'start_coords', (2, 0), 'start')]),
     'linked': dict(s0=dict(thr=5.0), make=mk_linked, muts=[m_upd_x(1), m_link(False), m_link(True), m_link_swap(), setter([], 'right', 7.0, 'thr')]),
@@ -490,7 +524,7 @@ class Scenario(object):
         self.attached = attached
         self.muts = KINDS[kind]['muts']
         self.table = dict((n, (r, m)) for n, r, m in self.muts)
-        self.evals = dict(EVALS)
+        self.evals = dict(EVALS + KINDS[kind].get('evals', []))
 
     def new_world(self):
         return World(self.kind, self.attached, P0(self.kind), listen=True)
@@ -499,7 +533,7 @@ class Scenario(object):
         return op[0]
 
     def enabled(self, w):
-        ops = [[n] for n, _ in EVALS]
+        ops = [[n] for n in self.evals]
         for n, r, m in self.muts:
             if n == 'link:add' and w.p['link']:
                 continue
